@@ -3,6 +3,7 @@
 From Coq Require Import Lia.
 From SV Require Import Model.Analytic Model.AnalyticMulti Spec.AnalyticSpec Proofs.AnalyticSeq Proofs.AnalyticKey
   Proofs.AnalyticEngine Proofs.AnalyticQuery Proofs.AnalyticField Proofs.AnalyticMulti Proofs.AnalyticGated.
+From SV Require Import Model.AnalyticPath Spec.AnalyticPathSpec Proofs.AnalyticPath.
 
 (* analytic_seq: lag / latest / had_changed / changed_col / acc_sum,count,avg,min,max -- for every call whose
    configuring arguments (offset, default, ignoreNull) are literals and for EVERY history of counted rows of a
@@ -230,4 +231,67 @@ Proof.
       constructor; [intros []|constructor]. }
     repeat (constructor; [apply Hrow|]). constructor.
   - split; vm_compute; reflexivity.
+Qed.
+
+(* ======================================================================================================
+   PARTITION BY keys that are paths into tree rows (PARTITION BY meta.site, a.b.c)  (third family, N / P lines)
+   ====================================================================================================== *)
+
+(* the partition value of a key whose path leads somewhere is the value AT THE PATH - with the code's resolution
+   (fb = true) and with the declarative one (fb = false) - and it depends on the row only through the column the
+   path starts at: two rows carrying the same object under that column are in the same partition whatever their
+   other columns hold, a top-level column named like the path's leaf included (the resolution order
+   row[key] -> nested path -> "qualified column" suffix of stream/analytic.go resolvePartitionField) *)
+Theorem C14_nested_key_own_path : forall fb r1 r2 key p t x,
+  an_split_dot key = p :: t -> alookup key r1 = None -> alookup key r2 = None ->
+  alookup p r1 = alookup p r2 -> an_path_get (p :: t) (ANMap r1) = Some x ->
+  an_resolve fb r1 key = an_scalar (Some x) /\ an_resolve fb r2 key = an_scalar (Some x).
+Proof. exact nested_key_own_path. Qed.
+Print Assumptions C14_nested_key_own_path.
+
+(* the model of EmitSync on tree rows IS the extracted specification the driver judges N lines with (over the
+   code's resolution), for every query of the second family, every history and every interleaving within the cap *)
+Theorem C14_nested_msync_spec : forall q h, mquery_wf q = true -> Forall nrow_ok h -> an_nmwithin true q h = true ->
+  an_nmsync q h = an_nmspec true false q h.
+Proof. exact nested_msync_spec. Qed.
+Print Assumptions C14_nested_msync_spec.
+
+(* ... and the DECLARATIVE specification (partition value = value at the path, NULL when the path leads nowhere)
+   on every history in which no row takes the suffix fallback, i.e. in which no row whose path leads nowhere
+   carries a top-level column named like the leaf *)
+Theorem C14_nested_msync_strict : forall q h, mquery_wf q = true -> Forall nrow_ok h -> no_fallback q h ->
+  an_nmwithin false q h = true -> an_nmsync q h = an_nmspec false false q h.
+Proof. exact nested_msync_strict. Qed.
+Print Assumptions C14_nested_msync_strict.
+
+Theorem C14_nested_msync_async_same : forall q sch h, an_nmasync q sch h = an_nmsync q h.
+Proof. exact nested_msync_async_same. Qed.
+Print Assumptions C14_nested_msync_async_same.
+
+(* the remaining rows are a finding: PARTITION BY meta.site, rows {meta:{site:"A"}, v:1} and {site:"A", v:100}
+   (no meta): acc_sum(v) is 1, 101 in the code - the second row is keyed by its top-level column site and joins
+   partition "A" - and 1, 100 by the statement (its meta.site is NULL); both within the cap *)
+Theorem C14_nested_missing_fallback_asis_refuted :
+  an_split_dot ex_key = [ex_meta; ex_site] /\
+  an_nmsync ex_q ex_h = [Some [AOV (AVFlt 1)]; Some [AOV (AVFlt 101)]] /\
+  an_nmspec false false ex_q ex_h = [Some [AOV (AVFlt 1)]; Some [AOV (AVFlt 100)]] /\
+  an_nmwithin true ex_q ex_h = true /\ an_nmwithin false ex_q ex_h = true.
+Proof. exact nested_missing_fallback_asis_refuted. Qed.
+Print Assumptions C14_nested_missing_fallback_asis_refuted.
+
+(* non-vacuity of C14_nested_key_own_path / C14_nested_msync_strict: rows {site:"gw", meta:{site:"A"|"B"}, v}
+   interleaved A, B, A - every row also carries the unrelated top-level column site - keep separate acc_sum state *)
+Example C14_example_nested :
+  let row s x := [(ex_site, ANLeaf (AVStr [103; 119]%N)); (ex_meta, ANMap [(ex_site, ANLeaf (AVStr s))]);
+                  (ex_v, ANLeaf (AVInt x))] in
+  let h := [row [65]%N 1%Z; row [66]%N 10%Z; row [65]%N 2%Z] in
+  mquery_wf ex_q = true /\ Forall nrow_ok h /\ no_fallback ex_q h /\ an_nmwithin false ex_q h = true /\
+  an_nmsync ex_q h = [Some [AOV (AVFlt 1)]; Some [AOV (AVFlt 10)]; Some [AOV (AVFlt 3)]].
+Proof.
+  cbv zeta. split; [reflexivity|]. split.
+  - repeat constructor; unfold nrow_ok; simpl;
+      (repeat constructor; simpl; intros H; repeat (destruct H as [H|H]; [discriminate|]); exact H).
+  - split; [|split; vm_compute; reflexivity].
+    intros r k Hr Hk. simpl in Hk. destruct Hk as [<-|[]].
+    simpl in Hr. repeat (destruct Hr as [<-|Hr]; [vm_compute; reflexivity|]). contradiction.
 Qed.
